@@ -52,7 +52,8 @@ Record site := Site {
   s_sup    : bool;       (* include_supertypes *)
   s_field  : bool;       (* Discriminator.field is not None *)
   s_tagger : bool;       (* variant_tagger_fn is not None *)
-  s_config : bool        (* class-level (Config.discriminator) wiring *)
+  s_config : bool;       (* class-level (Config.discriminator) wiring; then s_bases = [the declaring class] *)
+  s_codec  : bool        (* site of a codec (non-nailed builder): nested class-level registries live on the codec *)
 }.
 
 (* builder.py:396-401 rebuilds the Discriminator without include_supertypes *)
@@ -87,12 +88,45 @@ Definition reg_add_variant (cl: list cls) (s: site) (r: reg) (v: nat) : reg :=
 Definition refill (cl: list cls) (s: site) (r: reg) : reg :=
   fold_left (reg_add_variant cl s) (variants cl s) r.
 
-Record st := St { classes : list cls; regs : list (nat * reg) }.
+(* Registry keys: (i, 0) = registry of site i (for a Config root: the class attribute
+   __mashumaro_subtype_variants__ in the root's own __dict__); (i, S c) = registry of the class-level
+   discriminator of class c as compiled *inside codec i* (a non-nailed builder keeps it on its own
+   AttrsHolder, not on the class). *)
+Definition rkey := (nat * nat)%type.
+Definition rkey_eqb (a b: rkey) : bool := Nat.eqb (fst a) (fst b) && Nat.eqb (snd a) (snd b).
 
-Fixpoint get_reg (i: nat) (rs: list (nat * reg)) : reg :=
+Record st := St { classes : list cls; regs : list (rkey * reg) }.
+
+Fixpoint get_reg (k: rkey) (rs: list (rkey * reg)) : reg :=
   match rs with
   | [] => []
-  | (j, r) :: rs' => if Nat.eqb i j then r else get_reg i rs'
+  | (j, r) :: rs' => if rkey_eqb k j then r else get_reg k rs'
+  end.
+
+(* the class-level discriminator declared by class c itself, if any: the Config site whose base is c *)
+Definition is_config_of (c: nat) (s: site) : bool :=
+  s_config s && match s_bases s with [b] => Nat.eqb b c | _ => false end.
+
+Fixpoint find_idx {A} (p: A -> bool) (l: list A) (i: nat) : option (nat * A) :=
+  match l with
+  | [] => None
+  | a :: r => if p a then Some (i, a) else find_idx p r (S i)
+  end.
+
+(* variants whose unpacker is (re)built by a refill: those that registered a tag (every one with a tagger) *)
+Definition built (cl: list cls) (s: site) : list nat :=
+  if s_tagger s then variants cl s
+  else filter (fun v => match c_tags (nth v cl dummy_cls) with [] => false | _ => true end) (variants cl s).
+
+Definition reset_nested (top: nat) (vs: list nat) (rs: list (rkey * reg)) : list (rkey * reg) :=
+  fold_left (fun rs v => ((top, S v), []) :: rs) vs rs.
+
+Definition config_site (sites: list site) (c: nat) : option (nat * site) := find_idx (is_config_of c) sites 0.
+
+Fixpoint find_map {A B} (f: A -> option B) (l: list A) : option B :=
+  match l with
+  | [] => None
+  | a :: r => match f a with Some b => Some b | None => find_map f r end
   end.
 
 Inductive op :=
@@ -112,21 +146,54 @@ Section Step.
     let ps' := filter (fun p => p <? length cl) ps in
     Cls ps' tg tu (rq ++ flat_map (fun p => c_req (nth p cl dummy_cls)) ps').
 
-  Definition decode_field (s: site) (i: nat) (x: st) (t: tag) : st * outcome :=
-    let r := get_reg i (regs x) in
-    match reg_get t r with
-    | Some c => (x, OInst c)                                  (* try: return registry[tag].from_dict(value) *)
-    | None =>
-        let r' := refill (classes x) s r in                  (* except KeyError: refill ... *)
-        let x' := St (classes x) ((i, r') :: regs x) in
-        match reg_get t r' with
-        | Some c => (x', OInst c)                             (* ... retry *)
-        | None => (x', ONotFound)                             (* SuitableVariantNotFoundError *)
+  (* Generated dispatcher with registry key k and settings s.  `registry[tag].from_dict(value)` enters the
+     chosen class: a class that declares its own class-level discriminator is a dispatcher again
+     (over its strict subclasses, with its own registry); any other class yields an instance. *)
+  Fixpoint dispatch (fuel: nat) (top: nat) (codec: bool) (k: rkey) (s: site) (x: st) (t: tag) : st * outcome :=
+    match fuel with
+    | 0 => (x, OBadSite)
+    | S f =>
+        if negb (site_ok s (length (classes x))) then (x, OBadSite) else
+        let enter (x: st) (c: nat) : st * outcome :=
+          match config_site sites c with
+          | None => (x, OInst c)
+          | Some (j, sj) =>
+              if s_field sj then dispatch f top codec (if codec then (top, S c) else (j, 0)) sj x t
+              else (x, ONotFound)        (* not generated: a no-field dispatcher below a field one *)
+          end in
+        let r := get_reg k (regs x) in
+        match reg_get t r with
+        | Some c => enter x c                                       (* try: return registry[tag].from_dict(value) *)
+        | None =>
+            let r' := refill (classes x) s r in                     (* except KeyError: refill ... *)
+            (* a codec compiles every registered variant afresh on each refill (new AttrsHolder):
+               the registries of their nested class-level dispatchers start empty again *)
+            let rs := if codec then reset_nested top (built (classes x) s) (regs x) else regs x in
+            let x' := St (classes x) ((k, r') :: rs) in
+            match reg_get t r' with
+            | Some c => enter x' c                                  (* ... retry *)
+            | None => (x', ONotFound)                               (* SuitableVariantNotFoundError *)
+            end
+        end
+    end.
+
+  (* no-field mode: `variant.from_dict(value)` of a class with its own (no-field) class-level
+     discriminator succeeds iff one of its strict subclasses does, and returns that instance *)
+  Fixpoint try_cls (fuel: nat) (cl: list cls) (present: list nat) (c: nat) : option nat :=
+    match fuel with
+    | 0 => None
+    | S f =>
+        match config_site sites c with
+        | None => if acc (nth c cl dummy_cls) present then Some c else None
+        | Some (_, sj) =>
+            if s_field sj then None      (* not generated: MissingDiscriminatorError is swallowed by `except Exception` *)
+            else if negb (site_ok sj (length cl)) then None
+            else find_map (try_cls f cl present) (variants cl sj)
         end
     end.
 
   Definition decode_nofield (s: site) (x: st) (present: list nat) : outcome :=
-    match find (fun c => acc (nth c (classes x) dummy_cls) present) (variants (classes x) s) with
+    match find_map (try_cls (S (length (classes x))) (classes x) present) (variants (classes x) s) with
     | Some c => OInst c
     | None => ONotFound
     end.
@@ -142,7 +209,7 @@ Section Step.
             else if s_field s then
               match t with
               | None => (x, Some OMissing)                    (* value[field] -> KeyError *)
-              | Some t => let (x', o) := decode_field s i x t in (x', Some o)
+              | Some t => let (x', o) := dispatch (S (S (length (classes x)))) i (s_codec s) (i, 0) s x t in (x', Some o)
               end
             else (x, Some (decode_nofield s x present))
         end
